@@ -148,7 +148,31 @@ class C20(Prop):
                 for ax in dd["axes"].values():
                     ax["attrs_py"] = {}
                 dd["attrs"] = {}
-                yield {"op": "multi", "ds": dd, "n": rng.choice([2, 3]), "how": rng.choice(["stack", "concat"]), "seed": i}
+                c = {"op": "multi", "ds": dd, "n": rng.choice([2, 3]), "how": rng.choice(["stack", "concat"]), "seed": i}
+                if rng.random() < 0.6:
+                    # align / sort / join options, on files whose secondary axes are equal, permuted or partly different
+                    c["opts"] = {"align": rng.random() < 0.7, "sort": rng.random() < 0.4}
+                    if rng.random() < 0.7:
+                        c["opts"]["join"] = rng.choice(["inner", "inner", "outer"])
+                    cand = dd["dims"][1:] if c["how"] == "concat" else dd["dims"]
+                    if cand and rng.random() < 0.85:
+                        d1 = rng.choice(cand)
+                        ax = dd["axes"][d1]
+                        sec = []
+                        for k in range(c["n"]):
+                            labs = list(ax["labels"])
+                            m = rng.choice(["same", "permute", "replace", "drop", "add"])
+                            if m == "permute":
+                                rng.shuffle(labs)
+                            elif m == "replace" and labs:
+                                labs[rng.randrange(len(labs))] = gen.absent_label(rng, dict(ax, labels=labs))
+                            elif m == "drop" and len(labs) > 1:
+                                labs.pop(rng.randrange(len(labs)))
+                            elif m == "add":
+                                labs.insert(rng.randrange(len(labs) + 1), gen.absent_label(rng, dict(ax, labels=labs)))
+                            sec.append(labs)
+                        c["secondary"] = {"dim": d1, "labels": sec}
+                yield c
 
     def gen_history(self, rng, i):
         """a stored variable and 1-4 on-disk assignments / reads through the handle"""
@@ -299,7 +323,12 @@ class C20(Prop):
                     p = self.path(c); paths.append(p)
                     return self.unlimited(c, paths)
                 if c["op"] == "multi":
-                    dss = [c19.build_ds(c["ds"], base=10 * i) for i in range(c["n"])]
+                    dds = [copy.deepcopy(c["ds"]) for _ in range(c["n"])]
+                    if c.get("secondary"):
+                        for ddi, labs in zip(dds, c["secondary"]["labels"]):
+                            ddi["axes"][c["secondary"]["dim"]]["labels"] = labs
+                    dss = [c19.build_ds(ddi, base=10 * i) for i, ddi in enumerate(dds)]
+                    opts = dict(c.get("opts") or {})
                     d0 = c["ds"]["dims"][0]
                     if c["how"] == "concat":
                         # files hold consecutive pieces along the first dimension: relabel so that labels differ
@@ -313,11 +342,11 @@ class C20(Prop):
                     singles = [da.read_nc(p) for p in paths]
                     if c["how"] == "stack":
                         keys = ["f%d" % i for i in range(c["n"])]
-                        got = core.guarded(lambda: c19.obs_dataset(da.read_nc(list(paths), axis="file", keys=keys)))
-                        exp = core.guarded(lambda: c19.obs_dataset(da.stack_ds(singles, axis="file", keys=keys)))
+                        got = core.guarded(lambda: c19.obs_dataset(da.read_nc(list(paths), axis="file", keys=keys, **opts)))
+                        exp = core.guarded(lambda: c19.obs_dataset(da.stack_ds(singles, axis="file", keys=keys, **opts)))
                     else:
-                        got = core.guarded(lambda: c19.obs_dataset(da.read_nc(list(paths), axis=d0)))
-                        exp = core.guarded(lambda: c19.obs_dataset(da.concatenate_ds(singles, axis=d0)))
+                        got = core.guarded(lambda: c19.obs_dataset(da.read_nc(list(paths), axis=d0, **opts)))
+                        exp = core.guarded(lambda: c19.obs_dataset(da.concatenate_ds(singles, axis=d0, **opts)))
                     return {"ok": {"got": got, "expected": exp, "multi": True}}
             finally:
                 for p in paths:
@@ -478,6 +507,8 @@ class C20(Prop):
                 f["ix:" + k] = 1
         if c["op"] == "multi":
             f["how"] = c["how"]
+            f["multi.options"] = "none" if not c.get("opts") else ",".join("%s=%s" % kv for kv in sorted(c["opts"].items()))
+            f["multi.secondary"] = "equal" if not c.get("secondary") else "varied"
         if c["op"] == "dsread":
             f["mode"] = c["mode"]; f["ix:" + c["_ixkind"]] = 1; f["names"] = "all" if c["names"] is None else "list"
             if "ok" in io:
